@@ -30,6 +30,21 @@ RULE = ("[stream textio: byte strings (documents in utf-8 / utf-16 LE+BE / latin
         "next to the parsed FILE; file names that themselves look like BibTeX (as text and as the path of parse_file / write_file); "
         "all with stacks in every argument position: the result is the split of THE GIVEN TEXT followed by the stack (composition "
         "computed before the surroundings are created, entry point called inside them). "
+        "EVERY KIND OF TARGET AND EVERY FORM OF PATH (streams wtarget / psource, props/c20_targets.py): write_file with real files from open() in "
+        "modes w / a / w+ / x / r+ / a+ and from a descriptor, in ten encodings, five newline settings, several error handlers and bufferings, "
+        "io.TextIOWrapper over BytesIO / BufferedWriter / BufferedRandom, tempfile.NamedTemporaryFile / TemporaryFile / SpooledTemporaryFile "
+        "(rolled over and not), codecs.open / codecs.getwriter / StreamReaderWriter, gzip / bz2 / lzma text files, a pipe, a socket file, io.StringIO "
+        "(plain, subclass, with initial content), a pure-Python io.TextIOBase subclass, duck-typed objects that have only write(str) (returning a "
+        "count / None, with __slots__, a namespace, a __getattr__ wrapper, with file-like attributes, refusing non-str, write as instance "
+        "attribute); written to before, positioned at the start / in the middle / at the end, written to afterwards; paths for write_file and "
+        "parse_file relative, ./, ../, absolute, below directories with blanks and non-ASCII names, with .. and doubled slashes, six levels of "
+        "180-character components, through absolute / relative / chained symbolic links and a linked directory, a hard link, a str subclass, "
+        "24 file names (blanks at the ends, line feed, tab, quotes, 200 characters, 240 bytes of CJK, combining and bidi characters, leading - "
+        "and ~), existing and fresh; parse_file from a named pipe and from a file larger than 64 kB.  Verdict: what arrives equals what the "
+        "same target receives from one write() of the manual composition's text (bytes on disk after close; checked against "
+        "translate(pre + text + post).encode(encoding, errors) where that is a formula), None is returned, a refusing codec raises the same "
+        "class; model compared where the sink's content is old ++ text.  pathlib / bytes / PathLike / descriptor paths, binary, read-only and "
+        "closed file objects, missing files are recorded, nothing demanded. "
         "distinct = distinct case description; non-trivial = a non-empty stack or a non-trivial splice")
 TRUSTED = ["oracle instances supplied by the harness on every case: the graph of Splitter(text).split(), of every shipped middleware "
            "instance on the libraries it is applied to in the manual composition, of the codec (bytes.decode + universal newlines) "
@@ -385,6 +400,9 @@ def generate(rng, tier):
     # the runtime's text layer under parse_file / write_file against Model/TextIO.v (ops 180 / 181), appended last (props/c20_textio.py)
     from props import c20_textio
     cases += c20_textio.generate(rng, quick)
+    # every kind of target write_file can be handed, every form of path (streams wtarget / psource, props/c20_targets.py): appended last
+    from props import c20_targets
+    cases += c20_targets.generate(rng, quick)
     return cases
 
 
@@ -653,6 +671,9 @@ def shrink(case):
     if inp.get("op") == "textio":          # shorter byte strings / texts: drop one item at a time
         k = "data" if inp["kind"] == "read" else "text"
         return [{"stream": case.get("stream", "shrink"), "input": dict(inp, **{k: inp[k][:i] + inp[k][i + 1:]})} for i in range(len(inp[k]))][:40]
+    if inp.get("op") in ("wtarget", "psource"):
+        from props import c20_targets
+        return c20_targets.shrink(case)
 
     def mk(**kw):
         out.append({"stream": case.get("stream", "shrink"), "input": dict(inp, **kw)})
@@ -1300,6 +1321,9 @@ def impl(case):
     if op == "textio":
         from props import c20_textio
         return c20_textio.impl(case)
+    if op in ("wtarget", "psource"):
+        from props import c20_targets
+        return c20_targets.impl(case)
     import bibtexparser
     from bibtexparser.splitter import Splitter
     from bibtexparser import writer as W
